@@ -43,8 +43,8 @@ ALIAS_NAMES = ["PC", "SP", "LR", "FP", "GP", "UGP", "USR", "LC0", "LC1", "SA0", 
 ALIAS_ATOMS = [("HEX_REG_ALIAS_" + n_ + sfx_, "reg_alias") for n_ in ALIAS_NAMES for sfx_ in ("", "_NEW")]
 EXPLICIT_ATOMS = [("R0", "explicit_reg"), ("R13", "explicit_reg"), ("R1:0", "explicit_reg"), ("P3", "explicit_reg"), ("P3_NEW", "explicit_reg"), ("C2", "explicit_reg"),
                   ("C3:2", "explicit_reg"), ("M0", "explicit_reg"), ("R31_NEW", "explicit_reg")]
-# register numbers with a digit 4..9 (listed finding C17-explicit-register-digits: the character class [0-31] admits 0..3 only)
-EXPLICIT_HIGH = ["R15", "R4", "R29", "C6", "C9:8", "P3:0", "R7_NEW", "R28"]
+# register numbers with a digit 4..9 (the terminal once used the character class [0-31], i.e. the digits 0..3: repaired in /repo)
+EXPLICIT_HIGH = ["R15", "R4", "R29", "C6", "C9:8", "P3:0", "R7_NEW", "R28", "R30", "R31", "C31:30", "R11:10_NEW"]
 TYPES = ["int32_t", "uint8_t", "size4u_t", "int", "unsigned"]
 AMBIG = ["{ a = 1; { b = 1; } ; }", "{ a = b---c; }", "{ if (a) if (b) RdV = 1; else RdV = 2; }", "{ RdV = RsV&&RtV; }", "{ RdV = a & b && c; }",
          "{ RdV = (a)-b; }", "{ RdV = (int)-b; }", "{ RdV = a ? b : c ? d : e; }", "{ RdV = ({ int x = 1; x; }) + 1; }", "{ {} ; {} }"]
